@@ -235,3 +235,178 @@ Proof.
     + cbv beta. rewrite window_map in Eb. unfold window_variance. rewrite Ea, Eb.
       rewrite Nat2Z.inj_mul. reflexivity.
 Qed.
+
+(* ------------------------------------------------------------------ the band of std_intensity *)
+
+Lemma nth_error_map2_inv {A B C : Type} (f : A -> B -> C) la : forall lb i y,
+  nth_error (map2 f la lb) i = Some y ->
+  exists a b, nth_error la i = Some a /\ nth_error lb i = Some b /\ y = f a b.
+Proof.
+  induction la as [|a r IH]; intros [|b lb] [|i] y H; simpl in H; try discriminate.
+  - injection H as H. exists a, b. auto.
+  - apply IH in H. exact H.
+Qed.
+
+Section Band.
+  Variables (eps : Q) (w : nat) (img : list (list oq)).
+  Let nr := length img.
+  Let nc := length (hd [] img).
+  Let off := ((w - 1) / 2)%nat.
+  Let fin := map (map nan0) img.
+  Let var := var_raster_z eps (Z.of_nat w) fin.
+  Hypothesis wodd : Nat.odd w = true.
+  Hypothesis rect : forall row, In row img -> length row = nc.
+  Hypothesis wr : (w <= nr)%nat.
+  Hypothesis wc : (w <= nc)%nat.
+
+  Lemma w_off : w = (2 * off + 1)%nat.
+  Proof.
+    apply Nat.odd_spec in wodd. destruct wodd as [m E]. unfold off. rewrite E.
+    replace (2 * m + 1 - 1)%nat with (m * 2)%nat by lia. rewrite Nat.div_mul by lia. lia.
+  Qed.
+
+  Lemma off_z : Z.to_nat ((Z.of_nat w - 1) / 2) = off.
+  Proof.
+    rewrite w_off at 1. replace (Z.of_nat (2 * off + 1) - 1)%Z with (Z.of_nat off * 2)%Z by lia.
+    rewrite Z.div_mul by lia. apply Nat2Z.id.
+  Qed.
+
+  Lemma fin_rect : forall row, In row fin -> length row = length (hd [] fin).
+  Proof.
+    intros row I. unfold fin in *. apply in_map_iff in I. destruct I as [x [E I]]. subst row.
+    rewrite map_length, (rect x I). unfold nc. destruct img; simpl; [reflexivity|]. rewrite map_length. reflexivity.
+  Qed.
+  Lemma fin_nc : length (hd [] fin) = nc.
+  Proof. unfold fin, nc. destruct img; simpl; [reflexivity|]. apply map_length. Qed.
+  Lemma fin_nr : length fin = nr.
+  Proof. apply map_length. Qed.
+
+  Lemma wpos : (0 < w)%nat.
+  Proof. pose proof w_off. lia. Qed.
+
+  Let m1 := box_sum w fin.
+  Let m2 := box_sum w (map (map (fun x => x * x)%Q) fin).
+
+  Lemma var_eq : var = map2 (map2 (var_cell eps (inject_Z (Z.of_nat w * Z.of_nat w)))) m1 m2.
+  Proof. unfold var, var_raster_z. rewrite Nat2Z.id. reflexivity. Qed.
+
+  Lemma sq_rect : forall row, In row (map (map (fun x => x * x)%Q) fin) ->
+    length row = length (hd [] (map (map (fun x => x * x)%Q) fin)).
+  Proof. apply rect_map. exact fin_rect. Qed.
+
+  Lemma m1_length : length m1 = (S nr - w)%nat.
+  Proof. unfold m1. rewrite box_sum_length; [rewrite fin_nr; reflexivity|rewrite fin_nc; pose proof wpos; lia]. Qed.
+  Lemma m2_length : length m2 = (S nr - w)%nat.
+  Proof.
+    unfold m2. rewrite box_sum_length; [rewrite map_length, fin_nr; reflexivity|].
+    rewrite hd_map_length, fin_nc. pose proof wpos. lia.
+  Qed.
+  Lemma m1_rows row : In row m1 -> length row = (S nc - w)%nat.
+  Proof. intro H. unfold m1 in H. apply box_sum_rows in H. rewrite fin_nc in H. exact H. Qed.
+  Lemma m2_rows row : In row m2 -> length row = (S nc - w)%nat.
+  Proof.
+    intro H. unfold m2 in H. apply box_sum_rows in H. rewrite hd_map_length, fin_nc in H. exact H.
+  Qed.
+
+  Lemma var_length : length var = (S nr - w)%nat.
+  Proof. rewrite var_eq, map2_length, m1_length, m2_length. lia. Qed.
+  Lemma var_rows i vrow : nth_error var i = Some vrow -> length vrow = (S nc - w)%nat.
+  Proof.
+    rewrite var_eq. intro H. apply nth_error_map2_inv in H. destruct H as [a [b [Ha [Hb E]]]]. subst vrow.
+    rewrite map2_length, (m1_rows a), (m2_rows b); [lia|eapply nth_error_In; eassumption..].
+  Qed.
+
+  (* what the band holds at a pixel of the image *)
+  Lemma std_band_cell r c : (r < nr)%nat -> (c < nc)%nat ->
+    cell (std_band eps (Z.of_nat w) img) r c =
+    Some (if (off <=? r)%nat && (off <=? c)%nat
+          then match nth_error var (r - off) with Some vrow => nth_error vrow (c - off) | None => None end
+          else None).
+  Proof.
+    intros Hr Hc. unfold cell, std_band. rewrite off_z. fold fin. fold var.
+    rewrite nth_error_map', nth_error_enumerate.
+    destruct (nth_error img r) as [row|] eqn:Er; [|apply nth_error_None in Er; fold nr in Er; lia].
+    cbn [option_map fst snd]. rewrite nth_error_map', nth_error_enumerate.
+    assert (length row = nc) as Lr by (apply rect; eapply nth_error_In; exact Er).
+    destruct (nth_error row c) as [x|] eqn:Ec; [|apply nth_error_None in Ec; lia].
+    cbn [option_map fst snd Nat.add]. reflexivity.
+  Qed.
+
+  Lemma std_band_inside r c : (off <= r)%nat -> (r + off < nr)%nat -> (off <= c)%nat -> (c + off < nc)%nat ->
+    exists v, cell (std_band eps (Z.of_nat w) img) r c = Some (Some v) /\
+      let win := window w fin (r - off) (c - off) in
+      let vw := window_variance w win in
+      let mp2 := (qsum (map (fun x => x * x) win) / inject_Z (Z.of_nat (w * w)))%Q in
+      ((eps * Qabs mp2 <= vw)%Q -> (v == vw)%Q) /\ ((vw < eps * Qabs mp2)%Q -> (v == 0)%Q).
+  Proof.
+    intros H1 H2 H3 H4. pose proof w_off as W.
+    destruct (box_sum_cell w fin) with (r := (r - off)%nat) (c := (c - off)%nat) as [a [Ca Ea]];
+      [exact fin_rect|rewrite fin_nc; lia|rewrite fin_nr; lia|rewrite fin_nc; lia|].
+    destruct (box_sum_cell w (map (map (fun x => x * x)%Q) fin)) with (r := (r - off)%nat) (c := (c - off)%nat)
+      as [b [Cb Eb]];
+      [exact sq_rect|rewrite hd_map_length, fin_nc; lia|rewrite map_length, fin_nr; lia
+      |rewrite hd_map_length, fin_nc; lia|].
+    fold m1 in Ca. fold m2 in Cb. rewrite window_map in Eb.
+    pose proof (cell_map2 (var_cell eps (inject_Z (Z.of_nat w * Z.of_nat w))) m1 m2 _ _ a b Ca Cb) as Cv.
+    rewrite <- var_eq in Cv.
+    eexists. split.
+    - rewrite std_band_cell by lia.
+      replace ((off <=? r)%nat && (off <=? c)%nat) with true
+        by (symmetry; apply andb_true_iff; split; apply Nat.leb_le; assumption).
+      unfold cell in Cv. destruct (nth_error var (r - off)) as [vrow|]; [|discriminate]. rewrite Cv. reflexivity.
+    - cbv zeta. unfold window_variance, var_cell. rewrite <- Nat2Z.inj_mul.
+      set (n := inject_Z (Z.of_nat (w * w))). set (win := window w fin (r - off) (c - off)) in *.
+      assert (b / n - a / n * (a / n) == qsum (map (fun x => x * x) win) / n - qsum win / n * (qsum win / n))%Q as Ev
+        by (rewrite Ea, Eb; reflexivity).
+      assert (Qabs (b / n) == Qabs (qsum (map (fun x => x * x) win) / n))%Q as Em by (rewrite Eb; reflexivity).
+      destruct (Qlt_bool _ _) eqn:T; unfold Qlt_bool in T.
+      + apply negb_true_iff, Qle_bool_false in T. split; intro H; [|reflexivity].
+        rewrite Ev, Em in T. exfalso. lra.
+      + apply negb_false_iff, Qle_bool_true in T. split; intro H; [exact Ev|].
+        rewrite Ev, Em in T. exfalso. lra.
+  Qed.
+
+  Lemma std_band_border r c : (r < nr)%nat -> (c < nc)%nat ->
+    ~ ((off <= r)%nat /\ (r + off < nr)%nat /\ (off <= c)%nat /\ (c + off < nc)%nat) ->
+    cell (std_band eps (Z.of_nat w) img) r c = Some None.
+  Proof.
+    intros Hr Hc B. pose proof w_off as W. rewrite std_band_cell by assumption. f_equal.
+    destruct ((off <=? r)%nat && (off <=? c)%nat) eqn:G; [|reflexivity].
+    apply andb_true_iff in G. destruct G as [G1 G2]. apply Nat.leb_le in G1, G2.
+    destruct (nth_error var (r - off)) as [vrow|] eqn:Ev; [|reflexivity].
+    assert (r - off < S nr - w)%nat as Lr by (rewrite <- var_length; apply nth_error_Some; congruence).
+    apply nth_error_None. rewrite (var_rows _ _ Ev). lia.
+  Qed.
+End Band.
+
+Definition in_interior (off nr nc r c : nat) : bool :=
+  (off <=? r)%nat && (r + off <? nr)%nat && (off <=? c)%nat && (c + off <? nc)%nat.
+
+Definition std_def_stmt : Prop :=
+  forall (eps : Q) (w : nat) (img : list (list oq)) (r c : nat),
+    Nat.odd w = true ->
+    (forall row, In row img -> length row = length (hd [] img)) ->
+    (w <= length img)%nat -> (w <= length (hd [] img))%nat ->
+    (r < length img)%nat -> (c < length (hd [] img))%nat ->
+    let off := ((w - 1) / 2)%nat in
+    if in_interior off (length img) (length (hd [] img)) r c
+    then (* the w x w window centred on (r, c) fits in the image *)
+      exists v, cell (std_band eps (Z.of_nat w) img) r c = Some (Some v) /\
+        let win := window w (map (map nan0) img) (r - off) (c - off) in
+        let vw := window_variance w win in
+        let mp2 := (qsum (map (fun x => x * x) win) / inject_Z (Z.of_nat (w * w)))%Q in
+        ((eps * Qabs mp2 <= vw)%Q -> (v == vw)%Q) /\ ((vw < eps * Qabs mp2)%Q -> (v == 0)%Q)
+    else cell (std_band eps (Z.of_nat w) img) r c = Some None.
+
+Lemma std_def : std_def_stmt.
+Proof.
+  intros eps w img r c Ho R Wr Wc Hr Hc off. unfold in_interior.
+  destruct (_ && _) eqn:G.
+  - apply andb_true_iff in G. destruct G as [G G4]. apply andb_true_iff in G. destruct G as [G G3].
+    apply andb_true_iff in G. destruct G as [G1 G2].
+    apply Nat.leb_le in G1, G3. apply Nat.ltb_lt in G2, G4.
+    apply std_band_inside; assumption.
+  - apply std_band_border; try assumption. intros [G1 [G2 [G3 G4]]].
+    apply Nat.leb_le in G1, G3. apply Nat.ltb_lt in G2, G4. fold off in G1, G2, G3, G4.
+    rewrite G1, G2, G3, G4 in G. discriminate.
+Qed.
